@@ -1,6 +1,9 @@
 # Table of claimed checks; exec'd by gen_manifest.py
 T = "runtime monitoring: "
-check("C02", "exploration", T + "reference-model oracle (clause evaluator over shadow rows) at the public API on derived frames, checkptr build; race-detector stage in thorough",
+check("C01", "exploration", T + "history monitor: every member of a growing family of frames/groupers/views/handed-out strings is re-observed against its creation-time snapshot after every operation; alias canaries; structural-invariant hook; checkptr build, race stage in thorough",
+      "Held on every history explored: no operation changed the observation (Err, Len, names, order, types, every cell) of any earlier frame, grouper, view or string, including under input-scribbling callbacks and scribbled result slices.",
+      "Trusted: observation through typed views (C09); the sharing statistics come from the verif hook; histories are sampled from an unbounded space.", "DESIGN.md §2 C01")
+check("C02", "exploration", T + "reference-model oracle (clause evaluator over shadow rows) at the public API on derived frames, plus equivalent clause rewrites; checkptr build, race stage in thorough",
       "Held on every Filter call explored: generated clause trees over the full comparator x argument-kind table on frames with arbitrary physical index, each compared row by row with a reference evaluator written from the statement. A sample of an unbounded program space, not a proof.",
       "Trusted: the shadow evaluator (harness/model/clause.go), observation through typed views (cross-checked by C09), Go runtime/compiler.", "DESIGN.md §2 C02")
 check("C03", "exploration", T + "result checker (permutation, whole rows, consecutive pairs under the stated comparator) incl. McIlroy-antiquicksort adversarial inputs; sorter regime counters via verif hook",
@@ -12,6 +15,45 @@ check("C04", "exploration", T + "reference partition oracle + recording user agg
 check("C05", "exploration", T + "checker over the reference partition: result rows are unmodified input rows, one per key class",
       "Held on every Distinct explored (same key material and collision frames as C04, with and without a unique id column).",
       "Trusted: model.Partition; typed views.", "DESIGN.md §2 C05")
+check("C06", "exploration", T + "shadow model executes the same instruction program row by row; user functions record call counts and argument hashes; known-behaviour model separates the recorded finding from any other deviation",
+      "Held on every Apply/FilteredApply/WithRowNums execution explored except the recorded finding (column copies and enum ToUpper ignore the FilteredApply filter), on frames with arbitrary physical index incl. frames produced by Aggregate.",
+      "Trusted: the shadow executor in props/c06.go; clause semantics of C02; typed views.", "DESIGN.md §2 C06")
+check("C07", "exploration", T + "typed reference evaluator over shadow rows for generated expression trees; constructed known-invalid expressions must give Err; context-independence probes",
+      "Held on every Eval explored: value, schema, no surviving temporaries, errors for invalid expressions, independence of evaluation contexts.",
+      "Trusted: the reference evaluator and function table in props/c07.go; typed views.", "DESIGN.md §2 C07")
 check("C08", "exploration", T + "constructive validity oracle: valid column maps must be reproduced, each single named corruption must be rejected; shadow projection for Select/Drop/Slice/Copy with exhaustive Slice bounds on small frames",
       "Held on every New input and projection request explored; Slice bounds exhaustive over [-1,n+1]^2 for frames of at most 12 rows.",
       "Trusted: the corruption generator's knowledge of validity (taken from the statement); typed views.", "DESIGN.md §2 C08")
+check("C09", "exploration", T + "cross-channel monitor (Len, ItemAt, Slice, ToCSV via encoding/csv, ToJSON via encoding/json tokens, String layout) and Equals verdict checks (reflexive/symmetric/transitive, single-difference negatives, shared-storage pairs, same-operation-on-rebuild)",
+      "Held on every derived frame explored: all observation channels agree and Equals coincides with cell-wise equality of the observations.",
+      "Trusted: encoding/csv and encoding/json as independent parsers; the String layout re-computation in props/c09.go.", "DESIGN.md §2 C09")
+check("C10", "exploration", T + "panic guard + error-state monitor over a type-product fuzz of every interface{} position, constructed single-fault misuse, and continuation of every error frame through every chainable operation with counting callbacks",
+      "Held on every call explored: no panic outside the documented ones, Err implies Len()==-1, constructed misuse gives Err, errors stay, callbacks do not run after an error, writers refuse error frames.",
+      "Trusted: the harness' classification of constructed misuse as invalid (taken from the statement's list).", "DESIGN.md §2 C10")
+check("C11", "exploration", T + "Go race detector (all workers are -race builds, reports parsed from the race log and de-duplicated by entry-point pair) + comparison of concurrent results with sequential ones over the full operation-pair matrix, four sharing relations, four root kinds, random storms",
+      "Held on every concurrent execution explored: no race report involving qframe code and every concurrent result equal to the sequential one. The race detector is happens-before based, so executed pairs are judged independently of timing; unexecuted paths and unexplored interleavings of results are not.",
+      "Trusted: the Go race detector's completeness for executed code (bounded shadow history); harness callbacks are race free.", "DESIGN.md §2 C11")
+check("C12", "exploration", T + "document generator with known denotation x read-schedule enumeration (whole, bytewise, every single split, every split pair for short documents, structural splits, random chunks, EOF with/after data) through a fragmenting io.Reader with a step bound",
+      "Held on every (document, configuration, schedule) explored; single and double split points are enumerated exhaustively for short documents (counts in the evidence).",
+      "Trusted: the document serialiser/denotation in props/c12.go; strconv for what parses as int/float/bool.", "DESIGN.md §2 C12")
+check("C13", "exploration", T + "round-trip oracle: ToCSV output read back by ReadCSV with declared types compared cell by cell (floats by bit pattern) for both EmptyNull settings and all writer options",
+      "Held on every round trip explored over hostile strings (no CR), floats incl. +-Inf/-0/subnormals, nulls, single-column and zero-row frames.",
+      "Trusted: typed views; the stated null<->\"\" rules.", "DESIGN.md §2 C13")
+check("C14", "exploration", T + "independent-parser oracle: json.Valid + token-level decoding of ToJSON output against the cells; ReadJSON(ToJSON(f)) inversion",
+      "Held on every frame explored with hostile names and cells (all byte values, controls, quotes, backslashes, U+2028/9, malformed UTF-8), finite floats and NaN, empty and large frames.",
+      "Trusted: encoding/json; per-byte U+FFFD replacement as the decoding of invalid bytes.", "DESIGN.md §2 C14")
+check("C15", "fault_enumeration", T + "fault injection at the io.Reader / io.Writer / database/sql driver boundary with every fault position enumerated per input (byte offsets x chunkings, rows, statement numbers)",
+      "Held for every (input, fault position) enumerated: no panic; a read either reports an error or equals the fault-free result; a write either reports an error or was accepted completely. Positions are exhaustive per input, inputs are sampled.",
+      "Trusted: the in-memory driver (harness/memsql) and the fault-injecting reader/writer in props/c15.go.", "DESIGN.md §2 C15")
+check("C16", "exploration", T + "differential monitor against strconv.AppendFloat('f',-1,64) through the formatter hook (five destination buffer states) and through ToJSON; structured value classes + bijectively mixed counters",
+      "Held on every float explored (every binary exponent, powers of ten/two with neighbours, halfway decimals, hard cases, subnormals, millions to billions of distinct random bit patterns). A sample of 2^64 inputs.",
+      "Trusted: strconv as reference; the hook gives direct access to the formatter ToJSON uses.", "DESIGN.md §2 C16")
+check("C17", "exploration", T + "rank-based reference for every comparator against every declared value, in/like sets at bitset word boundaries, Sort modes; constructive rejection checks through New/ReadCSV/ReadJSON; derived cardinalities around the 255 limit",
+      "Held on every enum construction, filter and sort explored.",
+      "Trusted: the rank reference (model.EnumRank); typed views.", "DESIGN.md §2 C17")
+check("C18", "exploration", T + "rule-based reference matcher (written from the statement) applied to a string and an enum column with identical cells in one Filter call each, so that the matcher's scratch buffer is reused across cells",
+      "Held on every (pattern, comparator, column) explored over special-casing alphabets, C1 controls, long cells, % placements, regular expressions and invalid expressions.",
+      "Trusted: strings.ToUpper / regexp as the meaning of 'Unicode upper-casing' and 'Go regular expression'.", "DESIGN.md §2 C18")
+check("C19", "exploration", T + "recording in-memory database/sql driver: offline check of the statement/argument event log against the shadow rows, write-then-read round trip, generated result sets with NULL runs and coercions",
+      "Held on every ToSQL event log, round trip and ReadSQL result explored, for every dialect option.",
+      "Trusted: harness/memsql; database/sql's argument conversion.", "DESIGN.md §2 C19")
